@@ -18,8 +18,6 @@ import (
 	"strings"
 	"sync"
 	"time"
-
-	"git.arvados.org/arvados.git/lib/verifshim/vsched"
 )
 
 type c13scn struct {
@@ -50,6 +48,12 @@ func c13locator(p []byte) string {
 	return fmt.Sprintf("%x+%d", md5.Sum(p), len(p))
 }
 
+func (k *c13keep) anomalies() []string {
+	k.mtx.Lock()
+	defer k.mtx.Unlock()
+	return append([]string(nil), k.anomaly...)
+}
+
 func (k *c13keep) note(s string) {
 	k.mtx.Lock()
 	k.anomaly = append(k.anomaly, s)
@@ -61,19 +65,20 @@ func (k *c13keep) PutB(p []byte) (string, int, error) {
 	k.mtx.Lock()
 	k.puts++
 	n := k.puts
+	freeFail := k.freeFail
 	k.mtx.Unlock()
 	fail := false
-	if vsched.Active() {
+	if c13Active() {
 		if k.faults > 0 {
-			if vsched.Choice(2, fmt.Sprintf("keep-write#%d-fails", n), []int{0, 0}) == 1 {
+			if c13Choice(2, fmt.Sprintf("keep-write#%d-fails", n), []int{0, 0}) == 1 {
 				fail = true
 				k.faults--
 			}
 		}
 		// the write is in flight: everybody else may run before it completes
-		vsched.Yield("keep-write-completes")
+		c13Yield("keep-write-completes")
 	} else {
-		fail = n == k.freeFail
+		fail = n == freeFail
 		for i := 0; i < n%4; i++ {
 			runtime.Gosched()
 		}
@@ -85,14 +90,14 @@ func (k *c13keep) PutB(p []byte) (string, int, error) {
 		k.mtx.Lock()
 		k.failed++
 		k.mtx.Unlock()
-		vsched.Log("keep-write#%d failed", n)
+		c13Log("keep-write#%d failed", n)
 		return "", 0, errors.New("keep write failed (injected)")
 	}
 	loc := c13locator(snap)
 	k.mtx.Lock()
 	k.blocks[loc] = snap
 	k.mtx.Unlock()
-	vsched.Log("keep-write#%d stored %q", n, snap)
+	c13Log("keep-write#%d stored %q", n, snap)
 	return loc, 1, nil
 }
 
@@ -290,7 +295,7 @@ func (e *c13env) do(op c13op) c13obs {
 	default:
 		panic("c13: unknown op " + op.K)
 	}
-	vsched.Log("%s -> err=%q data=%q", op, ob.err, ob.data)
+	c13Log("%s -> err=%q data=%q", op, ob.err, ob.data)
 	return ob
 }
 
@@ -335,11 +340,11 @@ func (e *c13env) body(faults, freeFail int) {
 		e.hs = append(e.hs, f)
 	}
 	e.keep.faults = faults // setup never writes; faults only concern the concurrent phase
-	var wg vsched.WaitGroup
+	var wg c13WaitGroup
 	wg.Add(len(sc.Tasks))
 	for t := range sc.Tasks {
 		t := t
-		vsched.GoNamed(fmt.Sprintf("client%d", t+1), func() {
+		c13Go(fmt.Sprintf("client%d", t+1), func() {
 			defer wg.Done()
 			for i, op := range sc.Tasks[t] {
 				e.ob.ops[t][i] = e.do(op)
@@ -352,7 +357,7 @@ func (e *c13env) body(faults, freeFail int) {
 		if n := hnode[h]; !seen[n] {
 			seen[n] = true
 			e.ob.final1[n] = c13readAll(f)
-			vsched.Log("final1 node%d=%q", n, e.ob.final1[n])
+			c13Log("final1 node%d=%q", n, e.ob.final1[n])
 		}
 	}
 	e.cdone = true
@@ -428,6 +433,10 @@ func (e *c13env) finish() {
 			e.load(ob.ops[t][i].man)
 		}
 	}
+	e.keep.mtx.Lock()
+	ob.faults = e.keep.failed
+	e.keep.freeFail = 0 // the final save is not subject to fault injection
+	e.keep.mtx.Unlock()
 	txt, err := e.fs.MarshalManifest(".")
 	ob.finalMan = &c13manifest{text: txt}
 	if err != nil {
@@ -438,9 +447,6 @@ func (e *c13env) finish() {
 	}
 	ob.final3 = map[string]string{}
 	c13dump(e.fs, ".", ob.final3, true)
-	e.keep.mtx.Lock()
-	ob.faults = e.keep.failed
-	e.keep.mtx.Unlock()
 }
 
 func (ob *c13observed) key() string {
@@ -507,4 +513,108 @@ func (ob *c13observed) describe(sc *c13scn) string {
 	}
 	fmt.Fprintf(&b, "\n  tree after final save: {%s}; injected write failures: %d", c13treeString(ob.final3), ob.faults)
 	return b.String()
+}
+
+// ---------------------------------------------------------------------------------------------
+// scenarios and verdicts (shared by the controlled and the free-running part)
+
+func c13w(h int, d string) c13op      { return c13op{K: "w", H: h, D: d} }
+func c13seek(h int, n int64) c13op    { return c13op{K: "seek", H: h, N: n} }
+func c13trunc(h int, n int64) c13op   { return c13op{K: "trunc", H: h, N: n} }
+func c13read(h int, n int64) c13op    { return c13op{K: "read", H: h, N: n} }
+func c13flush(p string, s bool) c13op { return c13op{K: "flush", A: p, Short: s} }
+func c13rename(a, b string) c13op     { return c13op{K: "rename", A: a, B: b} }
+func c13marshal() c13op               { return c13op{K: "marshal"} }
+func c13hs(paths ...string) []c13handle {
+	var hs []c13handle
+	for _, p := range paths {
+		hs = append(hs, c13handle{Path: p})
+	}
+	return hs
+}
+
+// Short scenarios (two clients, <= 2 operations each) get preemption bound 3 in the thorough tier.
+func c13scenarios() []c13scn {
+	return []c13scn{
+		{Name: "two-writers", Files: map[string]string{"f": "0123456"},
+			Handles: []c13handle{{Path: "f"}, {Path: "f", Off: 2}},
+			Tasks:   [][]c13op{{c13w(0, "AAAA"), c13w(0, "BB")}, {c13w(1, "cccc"), c13w(1, "dd")}}},
+		{Name: "two-appenders", Throttle: 1,
+			Handles: []c13handle{{Path: "f", Append: true}, {Path: "f", Append: true}},
+			Tasks:   [][]c13op{{c13w(0, "AAAA"), c13w(0, "BB")}, {c13w(1, "cc"), c13w(1, "dddd")}}},
+		{Name: "writer-truncater", Handles: c13hs("f", "f"),
+			Tasks: [][]c13op{{c13w(0, "AAAA"), c13w(0, "BBBB")}, {c13trunc(1, 2), c13trunc(1, 6)}}},
+		{Name: "writer-rename-dir", Files: map[string]string{"d/f": "0123"}, Handles: c13hs("d/f"),
+			Tasks: [][]c13op{{c13w(0, "AAAA"), c13w(0, "BB")}, {c13rename("d", "e"), c13marshal()}}},
+		{Name: "writer-flush", Throttle: 1, Handles: c13hs("f"),
+			Tasks: [][]c13op{{c13w(0, "AAAA"), c13w(0, "BB"), c13w(0, "CC")}, {c13flush("", false), c13flush("", true)}}},
+		{Name: "writer-marshal", Files: map[string]string{"f": "0123"}, Handles: c13hs("f"),
+			Tasks: [][]c13op{{c13w(0, "AAAA"), c13seek(0, 2), c13w(0, "BB")}, {c13marshal(), c13marshal()}}},
+		{Name: "two-savers", Files: map[string]string{"f": "01", "g": "23"}, Handles: c13hs("f", "g"),
+			Tasks: [][]c13op{{c13w(0, "AAAA"), c13marshal()}, {c13w(1, "bbbb"), {K: "sync"}}}},
+		{Name: "reader-overwriter", Handles: c13hs("f", "f"),
+			Tasks: [][]c13op{{c13w(0, "AAAA"), c13seek(0, 0), c13w(0, "BBBB")}, {c13read(1, 4), c13seek(1, 0), c13read(1, 4)}}},
+		{Name: "writer-remove", Files: map[string]string{"d/f": "01"}, Handles: c13hs("d/f"),
+			Tasks: [][]c13op{{c13w(0, "AAAA"), c13w(0, "BB")}, {{K: "remove", A: "d/f"}, c13marshal()}}},
+		{Name: "writer-removeall", Files: map[string]string{"d/f": "01", "d/g": "23"}, Handles: c13hs("d/f"),
+			Tasks: [][]c13op{{c13w(0, "AAAA"), c13flush("d", true)}, {{K: "removeall", A: "d"}, c13marshal()}}},
+		{Name: "shrink-grow", Handles: c13hs("f", "f"),
+			Tasks: [][]c13op{{c13w(0, "AAAA"), c13trunc(0, 2), c13trunc(0, 4)}, {c13read(1, 4), c13marshal()}}},
+		{Name: "writer-flusher-saver", Handles: c13hs("f"),
+			Tasks: [][]c13op{{c13w(0, "AAAA"), c13w(0, "BB")}, {c13flush("", true)}, {c13marshal()}}},
+		{Name: "rename-over-file", Files: map[string]string{"f": "01", "g": "23"}, Handles: c13hs("f", "g"),
+			Tasks: [][]c13op{{c13w(0, "AAAA"), c13w(1, "bbbb")}, {c13rename("f", "g"), c13marshal()}}},
+		{Name: "rename-vs-saver", Files: map[string]string{"d/f": "01", "e/g": "23"}, Handles: c13hs("d/f"),
+			Tasks: [][]c13op{{c13rename("d/f", "e/f"), c13w(0, "AAAA")}, {c13marshal(), c13flush("e", true)}}},
+		{Name: "two-files-saver", Files: map[string]string{"d/f": "01"}, Handles: c13hs("d/f", "d/g"),
+			Tasks: [][]c13op{{c13w(0, "AAAA"), c13trunc(0, 3)}, {c13w(1, "bbbb"), c13w(1, "cc")}, {c13marshal()}}},
+		{Name: "packed-small-files", Handles: c13hs("f", "g"),
+			Tasks: [][]c13op{{c13w(0, "AA"), c13w(0, "CC")}, {c13w(1, "bbb"), c13flush("", true), c13trunc(1, 1)}}},
+	}
+}
+
+func c13normalize(sc *c13scn) {
+	if sc.MaxBlock == 0 {
+		sc.MaxBlock = 4
+	}
+	if sc.Throttle == 0 {
+		sc.Throttle = 4
+	}
+	if sc.Files == nil {
+		sc.Files = map[string]string{}
+	}
+}
+
+type c13verdict struct {
+	class, why string
+}
+
+type c13judge struct {
+	memo   map[string]c13verdict
+	merges int64
+}
+
+func (j *c13judge) judge(sc *c13scn, ob *c13observed) c13verdict {
+	k := ob.key()
+	if v, ok := j.memo[k]; ok {
+		return v
+	}
+	_, _, st, hnode, happend := sc.initial()
+	class, why, merges := c13explain(sc.Tasks, st, hnode, happend, ob)
+	j.merges += merges
+	v := c13verdict{class, why}
+	j.memo[k] = v
+	return v
+}
+
+func c13outcome(sc *c13scn, ob *c13observed) string {
+	saves := 0
+	for t := range ob.ops {
+		for _, o := range ob.ops[t] {
+			if o.man != nil {
+				saves++
+			}
+		}
+	}
+	return fmt.Sprintf("%s: end {%s} faults=%d", sc.Name, c13treeString(ob.final2), ob.faults)
 }
